@@ -368,6 +368,7 @@ const preludeCommon = `(declare-datatypes ((NB 0)) (((mk (isnil Bool) (val B))))
 (declare-sort F64 0)
 (declare-datatypes ((Any 0)) (((ANil) (ABool (a.b Bool)) (AInt (a.it Int) (a.i Int)) (AFlt (a.ft Int) (a.f F64)) (AStr (a.s NB)) (ABytes (a.y NB)) (ARef (a.rt Int) (a.r Int)) (ASlc (a.st Int) (a.sl Slc)) (AOther (a.ot Int) (a.o Int)))))
 (declare-fun dyn (Int) Int)
+(define-fun kindcode ((x Any)) Int (ite ((_ is ANil) x) 0 (ite ((_ is ABool) x) 1 (ite ((_ is AStr) x) 2 (ite ((_ is ABytes) x) 3 (ite ((_ is AInt) x) (+ 1000 (a.it x)) (ite ((_ is AFlt) x) (+ 2000 (a.ft x)) (ite ((_ is ARef) x) (+ 3000 (a.rt x)) (ite ((_ is ASlc) x) (+ 4000 (a.st x)) (+ 5000 (a.ot x)))))))))))
 (define-fun cmp ((a B) (b B)) Int (ite (= a b) 0 (ite (le a b) (- 1) 1)))
 (define-fun lt ((a B) (b B)) Bool (and (le a b) (not (= a b))))
 (declare-const RK Int)
